@@ -49,7 +49,8 @@ EXT = BASE + [("errm", None), ("rt", None)]
 METHOD = {"seed": "with_seed", "shots": "with_shots", "offset": "with_shot_offset", "simobj": "with_simulator",
           "simshared": "with_simulator", "simseeded": "with_simulator",
           "sv": "statevector_sim", "stab": "stabilizer_sim", "coin": "coinflip_sim", "errm": "with_error_model",
-          "rt": "with_runtime", "run": "run"}
+          "rt": "with_runtime", "run": "run", "runfail": "run-that-fails"}
+RUNS = ("run", "runfail")      # events that do not create an instance
 
 OBS_FIELDS = ("simulator_object", "simulator_effective", "error_model_object", "error_model_effective",
               "runtime_object", "runtime_effective", "n_qubits", "n_shots", "shot_offset", "shot_increment",
@@ -86,6 +87,7 @@ class Stub:
         self.real = real
         self.last = None
         self.calls = 0
+        self.fail_next = False
 
     def run_shots(self, **kw):
         self.calls += 1
@@ -104,6 +106,16 @@ class Stub:
         if self.real is not None:
             return self.real.run_shots(**kw)
         eff = self.last[1][2]
+        if self.fail_next:
+            # the LAST shot of this run dies after its first entry (a panic in the program, a simulator error)
+            self.fail_next = False
+
+            def dying():
+                yield ("eff_seed", -1 if eff is None else eff)
+                raise RuntimeError("shot failed (injected by the C28 stub)")
+
+            n = int(kw.get("n_shots") or 0)
+            return iter([iter([("eff_seed", -1 if eff is None else eff)]) for _ in range(max(n - 1, 0))] + [dying()])
         return iter([iter([("eff_seed", -1 if eff is None else eff)]) for _ in range(int(kw.get("n_shots") or 0))])
 
 
@@ -176,6 +188,16 @@ class World:
         self.step += 1
         if kind == "run":
             return x.run()
+        if kind == "runfail":
+            from guppylang.emulator.exceptions import EmulatorError
+            self.stub.fail_next = True
+            try:
+                x.run()
+            except EmulatorError:
+                self.failed_runs = getattr(self, "failed_runs", 0) + 1
+            finally:
+                self.stub.fail_next = False
+            return None
         if kind == "seed":
             new = x.with_seed(arg)
         elif kind == "shots":
@@ -273,7 +295,7 @@ class World:
 
 def ev_text(ev):
     kind, arg, i = ev
-    a = "" if kind in ("run", "sv", "stab", "coin") else ("<fresh>" if arg is None and kind != "seed" else repr(arg))
+    a = "" if kind in ("run", "runfail", "sv", "stab", "coin") else ("<fresh>" if arg is None and kind != "seed" else repr(arg))
     return f"c{i}.{METHOD[kind]}({a})"
 
 
@@ -289,7 +311,7 @@ def compare_step(before, after, ev, violations, stats):
     """One-step comparison of every instance that existed before the event.  Appends
     (key, idx, changed-fields text, before text, after text)."""
     kind = ev[0]
-    what = "run" if kind == "run" else "derive"
+    what = "run" if kind in RUNS else "derive"
     for idx, (b, a) in enumerate(zip(before, after)):
         (ob, fb), (oa, fa) = b, a
         seeded = ob[15] is not None          # default_seed_argument == x.seed
@@ -315,7 +337,7 @@ def creation_step(history, idx):
         return -1
     n = 0
     for j, ev in enumerate(history):
-        if ev[0] != "run" and n + 1 < POOL_MAX:
+        if ev[0] not in RUNS and n + 1 < POOL_MAX:
             n += 1
             if n == idx:
                 return j
@@ -346,13 +368,14 @@ def events_for(alphabet, pool_size):
         for kind, arg in alphabet:
             out.append((kind, arg, i))
         out.append(("run", None, i))
+        out.append(("runfail", None, i))
     return out
 
 
 def pool_after(prefix):
     n = 1
     for ev in prefix:
-        if ev[0] != "run" and n < POOL_MAX:
+        if ev[0] not in RUNS and n < POOL_MAX:
             n += 1
     return n
 
@@ -442,7 +465,7 @@ def _explore_subtree(args):
                 _note(found, key, leaf[:j + 1], idx, f, b, a)
             snap = after
         # non-trivial history: some instance is (re)used after a sibling/child was derived from it or its ancestor
-        if any(e[0] != "run" for e in leaf[:-1]):
+        if any(e[0] not in RUNS for e in leaf[:-1]):
             stats["nontrivial"] += 1
         stats["seeded_instances_observed"] += sum(1 for o, _ in snap if o[15] is not None)
     return stats, sorted(states), found
